@@ -18,7 +18,22 @@ use super::types::*;
 use super::world::*;
 
 pub type MObject = Object<ScriptedManager>;
-pub type MPool = Pool<ScriptedManager>;
+pub type MPool = Pool<ScriptedManager, Wrapped>;
+
+/// Custom wrapper type: its `From<Object>` conversion runs inside get() and may panic.
+pub struct Wrapped(pub MObject);
+
+impl From<MObject> for Wrapped {
+    fn from(o: MObject) -> Self {
+        let w = o.world();
+        let m = *Object::metrics(&o);
+        let plan = lock(&w).begin_wrap(o.id, &m);
+        if let Some(n) = plan {
+            std::panic::panic_any(InjectedPanic(n));
+        }
+        Wrapped(o)
+    }
+}
 
 pub enum Res {
     Got(MObject),
@@ -63,7 +78,7 @@ pub struct Director {
 
 pub fn build_pool(w: &W) -> Result<MPool, String> {
     let cfg = lock(w).cfg.clone();
-    let mut b = Pool::builder(ScriptedManager { w: w.clone() })
+    let mut b = Pool::<ScriptedManager, Wrapped>::builder(ScriptedManager { w: w.clone() })
         .max_size(cfg.max_size)
         .queue_mode(match cfg.mode {
             Mode::Fifo => QueueMode::Fifo,
@@ -186,7 +201,7 @@ impl Director {
                 Some(d) => tokio::time::timeout(d, inner).await,
             };
             match r {
-                Ok(Ok(o)) => Res::Got(o),
+                Ok(Ok(o)) => Res::Got(o.0),
                 Ok(Err(e)) => Res::Err(e),
                 Err(_) => Res::OuterElapsed,
             }
@@ -275,6 +290,20 @@ impl Director {
                 w.tasks[t].phase = Phase::Done;
                 w.tasks[t].result = Some(format!("panic:{}", msg));
                 w.did_abandon = true;
+                // a panicking wrapper conversion sends the finished object straight back to the pool
+                if let Some(id) = w.wrap_returned.take() {
+                    if w.objs[id as usize].state == ObjState::Returning {
+                        if w.closed {
+                            w.viol(&["C06"], "kept_after_close", format!("obj{} returned to a closed pool was kept", id));
+                        }
+                        w.objs[id as usize].state = ObjState::Idle;
+                        w.ref_idle.push_back(id);
+                        if w.live() > w.max_size_now && !w.closed {
+                            let (l, mx) = (w.live(), w.max_size_now);
+                            w.viol(&["C07"], "surplus_kept", format!("obj{} was kept on return although {} objects exist and max_size is {}", id, l, mx));
+                        }
+                    }
+                }
             }
         }
         self.end();
